@@ -8,6 +8,7 @@ package main
 import (
 	"errors"
 	"fmt"
+	"sort"
 	"strconv"
 	"strings"
 
@@ -27,14 +28,16 @@ type crashSignal struct{ afterCommit bool }
 type ctl struct {
 	recording bool
 	puts      []putRec
-	mode   string // "", "count", "failwrite", "failcommit", "crashwrite", "crashcommit"
-	target int
-	n      int      // ticks seen in the current operation
-	kinds  []string // kind of each tick
-	fired  bool
+	mode      string // "", "count", "failwrite", "failcommit", "crashwrite", "crashcommit"
+	target    int
+	n         int      // ticks seen in the current operation
+	kinds     []string // kind of each tick
+	fired     bool
 }
 
-func (c *ctl) reset(mode string, target int) { c.mode, c.target, c.n, c.kinds, c.fired = mode, target, 0, nil, false }
+func (c *ctl) reset(mode string, target int) {
+	c.mode, c.target, c.n, c.kinds, c.fired = mode, target, 0, nil, false
+}
 
 // write is called before every mutating bucket call; returns an error to inject, or panics to crash.
 func (c *ctl) write(kind string, tx *ftx) error {
@@ -80,8 +83,8 @@ func (t *ftx) wrap(b db.Bucket) db.Bucket {
 	}
 	return &fbucket{b, t}
 }
-func (t *ftx) TopLevelBucket(name string) db.Bucket     { return t.wrap(t.dbTx.TopLevelBucket(name)) }
-func (t *ftx) FetchBucket(m db.BucketMeta) db.Bucket    { return t.wrap(t.dbTx.FetchBucket(m)) }
+func (t *ftx) TopLevelBucket(name string) db.Bucket  { return t.wrap(t.dbTx.TopLevelBucket(name)) }
+func (t *ftx) FetchBucket(m db.BucketMeta) db.Bucket { return t.wrap(t.dbTx.FetchBucket(m)) }
 func (t *ftx) CreateTopLevelBucket(name string) (db.Bucket, error) {
 	if err := t.c.write("createTop", t); err != nil {
 		return nil, err
@@ -290,6 +293,25 @@ func (e *env) dumpQuiet() string {
 	return s
 }
 
+// liveDump: what the running instance shows, for "an operation that reported an error left the running instance as
+// it was": the dump plus, per keystore, whether it is unlocked and how many addresses hold a private key
+func (e *env) liveDump() string {
+	s := e.dumpQuiet() + fmt.Sprintf(" locked=%v", e.kmc.IsLocked())
+	_, ks := e.kmc.VerifDump()
+	var rows []string
+	for _, k := range ks {
+		np := 0
+		for _, a := range k.Addrs {
+			if a.HasPriv {
+				np++
+			}
+		}
+		rows = append(rows, fmt.Sprintf("%d:u=%v,priv=%d", e.id(k.Name), k.Unlocked, np))
+	}
+	sort.Strings(rows)
+	return s + " " + strings.Join(rows, " ")
+}
+
 // replica builds a fresh wallet with the fault wrapper and replays the history on it.
 func (e *env) replica(pub int, history []string) *env {
 	r := &env{h: e.h, focus: e.focus, root: e.root, passes: e.passes, wf: e.wf, seeds: e.seeds, c: &ctl{}, faulty: true}
@@ -381,7 +403,7 @@ func (e *env) faultHistory(pub int, history []string) {
 		h.Res.Extra["fault_points"] = toInt(h.Res.Extra["fault_points"]) + len(exps)
 		for _, x := range exps {
 			r := e.replica(pub, prefix)
-			live := r.dumpQuiet()
+			live := r.liveDump()
 			r.c.reset(x.mode, x.at)
 			out, crashed := r.runOp(op)
 			fired := r.c.fired
@@ -396,7 +418,7 @@ func (e *env) faultHistory(pub int, history []string) {
 			h.Res.OracleEvals++
 			var liveAfter string
 			if !crashed {
-				liveAfter = r.dumpQuiet()
+				liveAfter = r.liveDump()
 			}
 			obs := r.reopenObs()
 			r.destroy()
@@ -482,7 +504,7 @@ func (e *env) genHistory(n int) []string {
 			add(fmt.Sprintf("export %d %s", id, s.ptok(priv)))
 		case x < 88 && len(ids) > 0:
 			add(fmt.Sprintf("delete %d %s", ids[r.Intn(len(ids))], s.ptok(priv)))
-		case x < 96 && len(s.files) > 0:
+		case x < 93 && len(s.files) > 0:
 			add(fmt.Sprintf("import %d %s - none", r.Intn(len(s.files)), s.ptok(s.files[0].priv)))
 		default:
 			if s.unlocked {
@@ -512,6 +534,9 @@ func runFaults(e *env) {
 	fixed := [][]string{
 		{"new p1w s0 6d61696e", "next 0 0 2", "remark 0 72656e616d6564", "genpub -", "delete 0 p1w"},
 		{"new p1w s0 -", "new p1w s1 78", "chpriv p1w p2w", "next 0 0 1", "export 0 p2w", "delete 0 p2w", "import 0 p2w - none"},
+		// the same kinds of operation on an UNLOCKED wallet (a failed operation must also leave the keys usable as before)
+		{"new p1w s0 -", "next 0 0 2", "unlock p1w", "next 0 1 1", "remark 0 72656e616d6564", "genpub -", "delete 0 p1w"},
+		{"new p1w s0 -", "new p1w s1 78", "unlock p1w", "chpriv p1w p2w", "export 0 p2w", "delete 1 p2w", "import 0 p2w - none", "lock"},
 	}
 	for _, hist := range fixed {
 		e.faultHistory(0, hist)
